@@ -6,7 +6,7 @@ from .. import scenarios
 PROFILES = {
     "C01": dict(gen=dict(napps=2, nsides=3, steps=70), keys=("c01_replay_nonempty",)),
     "C02": dict(gen=dict(napps=2, nsides=2, steps=70, max_conns=7), keys=("c02_fanout_subscribed",)),
-    "C03": dict(gen=dict(napps=3, nsides=3, steps=60, names=["1", "2", "7", "x"]), keys=("c03_same_id", "c03_first_claim")),
+    "C03": dict(gen=dict(napps=3, nsides=3, steps=60, names=["1", "2", "7", "x", " 7", "7 ", "X", "07"]), keys=("c03_same_id", "c03_first_claim")),
     "C05": dict(gen=dict(napps=1, nsides=5, steps=70, names=["1", "7"]), keys=("c05_third_open", "c05_third_claim", "c05_third_close")),
     "C07": dict(gen=dict(napps=2, nsides=3, steps=70), keys=("c07_survives_others_hold", "c07_gone_after_last_release")),
     "C08": dict(gen=dict(napps=2, nsides=2, steps=70), keys=("c08_survives_other_open", "c08_deleted_after_last_close")),
@@ -14,7 +14,7 @@ PROFILES = {
     "C15": dict(gen=dict(napps=2, nsides=4, steps=70), keys=("c15_classified_mailbox", "c15_classified_nameplate"), usage_only=True),
     "C17": dict(gen=dict(napps=2, nsides=3, steps=70, p_illegal=0.35, hostile=True, empty_side=True),
                 keys=("rejected_cmd",)),
-    "C16": dict(gen=dict(napps=2, nsides=3, steps=60), keys=("c16_blur_bind", "c16_blur_mailbox-close"), blur_only=True),
+    "C16": dict(gen=dict(napps=2, nsides=3, steps=60, switch_blur=[1, 7, 60, 61, 3600, 86400]), keys=("c16_blur_bind", "c16_blur_mailbox-close"), blur_only=True),
 }
 
 N_RANDOM = {"quick": 3000, "thorough": 60000}
